@@ -12,12 +12,12 @@ def run(tree, rep, tier):
     T4_edges(rep, T, files)
     flow = Flow(tree)
     flow.describe(rep)
-    K1_loader(rep, flow, T, tier, exact=False)
+    K1_loader(rep, flow, T, tier, mode="pairs")
     G3_graphs(rep, flow)
     P_rules(rep, flow, which=("P1", "P2", "P3"))
     rep.trusted += ["Q1", "Q2", "Q3", "Q4"]
     rep.decided += ["every two-qubit token of every advertised table lies on a documented edge (T4) and every multi-qubit token is a two-qubit token (T2)",
-                    "the loader appends exactly the token's gate on the token's qubits (K1)",
+                    "the loader appends two-qubit gates only on the pairs written in the two-qubit tokens (K1, pairs mode)",
                     "API results take two-qubit gates only from the table of the requested (n, connectivity) (P1), glue layers are single-qubit (P2), qubit lists are honoured (P3)",
                     "the coupling graphs built by the code equal the documented edge sets (G3)"]
     rep.not_decided += ["semantics of Qiskit's compose/inverse/InverseCancellation (trusted, Q1-Q4)"]
